@@ -1203,7 +1203,8 @@ public:
 
   void ref_to_int(const variable_t &reg, const variable_t &ref_var,
                   const variable_t &int_var) override {
-    // do nothing
+    // int_var is redefined
+    operator-=(int_var);
   }
 
   void int_to_ref(const variable_t &int_var, const variable_t &reg,
